@@ -145,6 +145,9 @@ def abbrev(pt):
     t = re.sub(r'\W+', '', t)
     return pre + 'p' * n + t
 
+NOTHROW_EXTERNALS = ('copy', 'move', 'assign', 'compare', 'find', 'length', 'lt', 'eq')
+LIBC = ('strtol', 'strtoll', 'strtoul', 'strtoull', 'strtod', 'strtof', 'snprintf', 'fwrite', 'fputc', 'abort', 'fprintf', 'memcpy', 'memset', 'memchr', 'strlen')
+
 # ---------------------------------------------------------------------------
 # index of declarations
 # ---------------------------------------------------------------------------
@@ -221,16 +224,61 @@ class Index:
         if k == 'FieldDecl' and cls:
             self.fields[n['id']] = (cls, n)
     def _const_value(self, n):
-        if not isinstance(n, dict): return None
-        if n.get('kind') == 'ConstantExpr' and 'value' in n: return n['value']
-        if n.get('kind') == 'IntegerLiteral': return n['value']
-        for c in n.get('inner', []):
-            v = self._const_value(c)
-            if v is not None: return v
+        """value of an initialiser that is a literal or a clang-evaluated ConstantExpr, looking through casts only"""
+        while isinstance(n, dict):
+            if n.get('kind') == 'ConstantExpr' and 'value' in n: return n['value']
+            if n.get('kind') == 'IntegerLiteral': return n['value']
+            if n.get('kind') in ('ImplicitCastExpr', 'ParenExpr', 'CStyleCastExpr', 'CXXStaticCastExpr', 'CXXFunctionalCastExpr') and n.get('inner'):
+                n = n['inner'][0]; continue
+            return None
         return None
     def _dependent(self, fn):
         # uninstantiated pattern: has TemplateTypeParm types
         return False
+    def may_throw(self, fid, stack=()):
+        """transitive: the body contains a throw, a new-expression, or a call to a function that may throw.
+        Functions without a body in the dump are assumed to throw unless declared noexcept."""
+        if not hasattr(self, '_mt'): self._mt = {}
+        d = self.definition_of(fid)
+        if d in self._mt: return self._mt[d]
+        if d in stack: return False
+        q, n, cls = self.funcs[d]
+        if 'noexcept' in n['type']['qualType'] or q == '_ST_PRIVATE::assert_handler':
+            self._mt[d] = False; return False
+        if not self.has_body(d):
+            self._mt[d] = not n.get('isImplicit'); return self._mt[d]
+        res = self._node_throws(n, stack + (d,))
+        self._mt[d] = res
+        return res
+    def _node_throws(self, n, stack):
+        if not isinstance(n, dict): return False
+        k = n.get('kind')
+        if k in ('CXXThrowExpr', 'CXXNewExpr'): return True
+        if k in ('CallExpr', 'CXXMemberCallExpr', 'CXXOperatorCallExpr'):
+            callee = n['inner'][0]
+            while callee.get('kind') in ('ImplicitCastExpr', 'ParenExpr'): callee = callee['inner'][0]
+            rid = None
+            if callee.get('kind') == 'DeclRefExpr': rid = callee['referencedDecl'].get('id'); rty = callee['referencedDecl'].get('type', {}).get('qualType', ''); rname = callee['referencedDecl'].get('name', '')
+            elif callee.get('kind') == 'MemberExpr': rid = callee.get('referencedMemberDecl'); rty = ''; rname = callee.get('name', '')
+            else: return True
+            if rid in self.funcs:
+                if self.may_throw(rid, stack): return True
+            elif 'noexcept' not in rty and rname not in NOTHROW_EXTERNALS + LIBC + ('min', 'max', 'abs', 'swap', 'move', 'forward', 'size', 'data', 'c_str', 'length', 'empty', 'begin', 'end'):
+                return True
+        if k == 'CXXConstructExpr':
+            # constructor resolved by class + signature
+            t = n.get('type', {}).get('desugaredQualType') or n.get('type', {}).get('qualType', '')
+            key = norm_class(t)
+            for cand in (key, 'ST::' + key, '_ST_PRIVATE::' + key):
+                if cand in self.records:
+                    short = cand.split('::')[-1].split('<')[0]
+                    for fid in self.byname.get(cand + '::' + short, []):
+                        if self.funcs[fid][1]['type']['qualType'] == n.get('ctorType', {}).get('qualType'):
+                            if self.may_throw(fid, stack): return True
+                    break
+            else:
+                if 'std::' in t and 'noexcept' not in n.get('ctorType', {}).get('qualType', ''): return True
+        return any(self._node_throws(c, stack) for c in n.get('inner', []))
     def has_body(self, fid):
         return any(c.get('kind') == 'CompoundStmt' for c in self.funcs[fid][1].get('inner', []))
     def resolve_out_of_line(self, top_objs):
@@ -461,7 +509,8 @@ class Emitter:
     def ctor_may_throw(self, ce, clsq):
         fid = self.ctor_lookup(ce, clsq)
         if fid is None: return False
-        return 'noexcept' not in self.ix.funcs[fid][1]['type']['qualType']
+        if 'noexcept' in self.ix.funcs[fid][1]['type']['qualType']: return False
+        return self.ix.may_throw(fid)
     def e_CXXConstructExpr(self, n):
         clsq = self.is_class_type(self.qt(n))
         if clsq and self.dtor_of(clsq) is None and len(n.get('inner', [])) == 1 and (self.ctor_lookup(n, clsq) is None or self.ctor_is_trivial(self.ctor_lookup(n, clsq))):
@@ -637,7 +686,7 @@ class Emitter:
             return False           # externals: stubs decide (st_new handled separately)
         q = self.ix.funcs[rd['id']][0]
         if q in self.spec.get('__nothrow__', ()): return False
-        return True
+        return self.ix.may_throw(rd['id'])
     def call(self, n, ret_target=None):
         """C text of a call; class-typed results are written through ret_target"""
         callee = n['inner'][0]; args = n['inner'][1:]
@@ -999,7 +1048,9 @@ class Emitter:
         for h in ls.get('havoc', []):
             h = h.strip()
             m = re.match(r'^slice\((.*),\s*(.*)\)$', h)
-            if m: o(p + '__CPROVER_havoc_slice(%s, %s);' % (m.group(1), m.group(2)))
+            mo = re.match(r'^object\((.*)\)$', h)
+            if m: o(p + 'if ((%s) != 0) __CPROVER_havoc_slice(%s, %s);' % (m.group(1), m.group(1), m.group(2)))
+            elif mo: o(p + 'if ((%s) != 0) __CPROVER_havoc_object(%s);' % (mo.group(1), mo.group(1)))
             else: o(p + '{ __typeof__(%s) __nd; %s = __nd; }' % (h, h))
         for lhs, rhs in ls.get('pin', []):
             o(p + '%s = %s;' % (lhs, rhs))
@@ -1237,18 +1288,25 @@ class Extraction:
                 raise Unsupported('prototype of %s: %s' % (self.ix.funcs[fid][0], ex))
             protos.append((fid, h))
         # globals
-        gl = []
-        for q, vid in em.globals_needed:
+        gl = []; gdone = []
+        def add_global(q, vid):
+            if vid in gdone: return
+            gdone.append(vid)
             node = self.ix.vars[vid][1]
             qt = node['type'].get('desugaredQualType', node['type']['qualType'])
             init = [c for c in node.get('inner', []) if c.get('kind') and not c['kind'].endswith('Attr')]
             d, _ = em.ty.decl(qt, cident(q))
-            em2 = Emitter(self.ix); em2.pre = []; em2.temps = []; em2.refs = set(); em2.scopes = [Scope('function')]; em2.stmt_level = False
             if not init: raise Unsupported('global without initialiser ' + q)
-            i0 = init[0]
-            v = self.ix._const_value(i0) if qt.replace('const ', '').strip() in ('int', 'unsigned int', 'unsigned long', 'long', 'char32_t', 'size_t', 'bool') or em.ty.name(qt.replace('const', '').strip()) in self_enum_names(self.ix) else None
-            if v is None: v = em2.e(i0)
+            em.pre = []; em.temps = []; em.refs = set(); em.scopes = [Scope('function')]; em.stmt_level = False
+            before = len(em.globals_needed)
+            v = self.ix._const_value(init[0])
+            if v is None: v = em.e(init[0])
+            if em.pre: raise Unsupported('global initialiser with side effects ' + q)
+            for q2, v2 in em.globals_needed[before:]: add_global(q2, v2)     # dependencies first
             gl.append('static %s = %s;' % (d, v))
+        i = 0
+        while i < len(em.globals_needed):
+            add_global(*em.globals_needed[i]); i += 1
         # records in dependency order
         recs = []
         def add_rec(q):
